@@ -4,6 +4,7 @@ import Model.Spec.Layout
 import Model.Tab.KeyHeader
 import Model.Spec.KeyHeader
 import Model.Spec.TextCsv
+import Model.Tab.Render
 
 namespace Driver.C16
 open Proto Tab.TextTab
@@ -111,12 +112,79 @@ def handleE2e (l : Line) : IO Unit := do
     IO.println s!"spec {l.id} {(Spec.TextCsv.judge (strOf t) (strOf c) (strOf w)).show}"
   | _, _, _ => pure ()
 
+/- case <id> kind=tbl unit= nf= nk= cols= nr= rows= sum= perm= start=   (cells view of one benchtab.Table, see
+     harness/c16/hooks/benchtab_export.go)
+   obs  <id> text=<hex> csv=<hex> warn=<hex> n=<rowCount>     (model ToText/ToCSV of the view)
+   spec <id> agree= hdr= layout=     printed when the harness's own obs line passes by: text vs CSV of the implementation -/
+
+open Tab.Render in
+def parseWarns (s : String) : List Bytes :=
+  if s == "" then [] else (s.splitOn ",").map fun h => (Bytes.ofHex h).getD []
+
+open Tab.Render in
+def parseDataCell (s : String) : Option DataCell :=
+  if s == "-" then none else
+  match s.splitOn ":" with
+  | [ct, cc, rg, w, d] =>
+    let hx := fun (h : String) => (Bytes.ofHex h).getD []
+    let delta : Option Delta := if d == "-" then none else
+      match d.splitOn "/" with
+      | [dd, p, dw] => some { delta := hx dd, p := hx p, warns := parseWarns dw }
+      | _ => none
+    some { centerText := hx ct, centerCsv := hx cc, range := hx rg, warns := parseWarns w, delta := delta }
+  | _ => none
+
+open Tab.Render in
+def parseSumCell (s : String) : Option SumCell :=
+  if s == "-" then none else
+  match s.splitOn ":" with
+  | [hs, st, sc, hr, ra, w] =>
+    let hx := fun (h : String) => (Bytes.ofHex h).getD []
+    some { hasSummary := hs == "1", sumText := hx st, sumCsv := hx sc, hasRatio := hr == "1", ratio := hx ra, warns := parseWarns w }
+  | _ => none
+
+open Tab.Render in
+def parseView (l : Line) : View :=
+  let hx := fun (h : String) => (Bytes.ofHex h).getD []
+  let nk := (l.nat? "nk").getD 0
+  let nr := (l.nat? "nr").getD 0
+  let rows := if nr == 0 then [] else ((l.getD "rows" "").splitOn "|").map fun r =>
+    match r.splitOn "~" with
+    | lab :: cells => (hx lab, cells.map parseDataCell)
+    | [] => ([], [])
+  let (sl, sum) := match (l.getD "sum" "").splitOn "~" with
+    | lab :: cells => (hx lab, cells.map parseSumCell)
+    | [] => ([], [])
+  { unit := hx (l.getD "unit" ""), nfields := (l.nat? "nf").getD 0,
+    colKeys := parseKeys (l.getD "cols" "") nk, rows := rows, summaryLabel := sl, summary := sum }
+
+open Tab.Render in
+def handleTbl (l : Line) : IO Unit := do
+  let v := parseView l
+  let (ops, wl) := toTextOps v
+  let text := match build ops with
+    | none => "!panic"
+    | some t =>
+      let perm := parseNats (l.getD "perm" "-")
+      if !validOrder t.cells perm then "!badperm"
+      else (format t (applyOrder t.cells perm) ++ footnoteLines wl).toHex
+  let st := toCsv v ((l.nat? "start").getD 1)
+  IO.println s!"obs {l.id} text={text} csv={(csvEncode st.recs).toHex} warn={Bytes.toHex st.warn.flatten} n={st.rowCount}"
+
+def handleImplObs (l : Line) : IO Unit := do
+  match l.bytes? "text", l.bytes? "csv", l.bytes? "warn" with
+  | some t, some c, some w =>
+    IO.println s!"spec {l.id} {(Spec.TextCsv.judge (strOf t) (strOf c) (strOf w)).show}"
+  | _, _, _ => pure ()
+
 def handle (l : Line) : IO Unit := do
+  if l.kind == "obs" && (l.get? "csv").isSome then handleImplObs l
   if l.kind != "case" then return
   match l.getD "kind" with
   | "tab" => handleTab l
   | "kh" => handleKh l
   | "e2e" => handleE2e l
+  | "tbl" => handleTbl l
   | _ => pure ()
 
 end Driver.C16
